@@ -900,9 +900,9 @@ class C11(PairProp):
     id = "C11"
     cone = ["Properties/C11.vo"]
     prop_file = "Properties/C11.v"
-    theorems = ["C11_include_is_walk", "C11_paste_is_sequencing", "C11_examples"]
+    theorems = ["C11_include_is_walk", "C11_paste_is_sequencing", "C11_search_current_directory_first", "C11_search_first_library_directory", "C11_search_reports_absence", "C11_examples"]
     partial = ["the two theorems give include = walking the file's blocks in place, up to the current-file name, the include stack and the current-block flag; that rendering does not read these (only diagnostics and the cycle check do) is tied by S-pairs, not proved",
-               "C11_lib (a file found through FRUNDISLIB behaves like one in the current directory) is the hypothesis search_inc_file = (path, true), whatever path is; tied by S-pairs with library directories"]
+               "C11_lib (a file found through FRUNDISLIB behaves like one in the current directory): C11_include_is_walk holds for whatever path the search returns, and the search is characterised (current directory first, then the first library directory that has the name, else not found); that the file system oracle is_file / fs_get is the operating system is tied by S-pairs with library directories"]
     describe_pairs = "document vs the same document with a run of blocks moved into an included file; documents in which one run occurs two or three times vs one file included at each place"
     DOCS = [[".Ch A", "text one", ".Bm", "two", ".Em", ".Sh B", "three"], [".#dv v x", ".#de m", "\\*[v] \\$1", ".#.", ".m a", ".Bl", ".It i", ".El", "end \\*[v]"],
             [".Bd", "a", ".Ed", ".Bl -t enum", ".It x", ".It y", ".El", ".Tc"], ["p1", ".P", "p2", ".#if 1", "c", ".#;", ".Sm w", "tail"], [".Pt P", ".Ch C", ".Sh -id s S", ".Sx s", ".Tc -mini"]]
